@@ -92,7 +92,7 @@ func TestVerif_C08_Concurrent(t *testing.T) {
 	r := kit.Start(t, "C08")
 	defer r.Finish()
 	c08InstallClock()
-	r.Rule("deciding policies (as in the sequential part); a lock-step prelude of 0-50 random steps (half of the cases then move the clock to the exact instant the open wait elapses, or past max-wait) leaves CLOSED / OPEN / HALF_OPEN states with outstanding calls of earlier states; then, at a frozen virtual time, 2-6 goroutines run scripts of 2-5 acquire/record operations (<= 30 operations); the history + final State() is checked by porcupine against the reference automaton; distinct = (start state, goroutines, linearizable, admissions in burst, final state)")
+	r.Rule("policies as in the sequential part (including those with minimumNumberOfCalls < permitted, whose half-open decision point is followed); a lock-step prelude of 0-50 random steps (half of the cases then move the clock to the exact instant the open wait elapses, or past max-wait) leaves CLOSED / OPEN / HALF_OPEN states with outstanding calls of earlier states; then, at a frozen virtual time, 2-6 goroutines run scripts of 2-5 acquire/record operations (<= 30 operations); the history + final State() is checked by porcupine against the reference automaton; distinct = (start state, goroutines, linearizable, admissions in burst, final state)")
 	r.Assume("same assumptions as TestVerif_C08_Sequential; logical timestamps are taken from one atomic counter before the call and after the return of every operation")
 	n := r.N(5000, 150000)
 	for i := 0; i < n; i++ {
@@ -100,7 +100,7 @@ func TestVerif_C08_Concurrent(t *testing.T) {
 			continue
 		}
 		rng := r.CaseRand(i)
-		pol := c08GenPolicy(rng, i, true)
+		pol := c08GenPolicy(rng, i, c08AnyPolicy)
 		r.Case(i, pol)
 		g := c08NewRig(r, pol, rng)
 		// ---- prelude
@@ -268,6 +268,10 @@ func TestVerif_C08_Concurrent(t *testing.T) {
 			case c08Closed:
 				kind = "closed-start"
 			}
+			if !pol.deciding() && kind == "more-admissions-than-permitted-trials" {
+				// HALF_OPEN may end inside the burst, later admissions can be CLOSED ones: the count says nothing
+				kind = "other(open-decision-point)"
+			}
 			starts := []interface{}{}
 			for _, s := range start {
 				starts = append(starts, s.describe())
@@ -294,4 +298,401 @@ func TestVerif_C08_Concurrent(t *testing.T) {
 	r.Require("conc_start_CLOSED", 1)
 	r.Require("conc_start_OPEN", 1)
 	r.Require("conc_start_HALF_OPEN", 1)
+}
+
+// ---------------------------------------------------------------- trials completing together
+
+func c08ToOps(hist []c08Logged) []porcupine.Operation {
+	ops := make([]porcupine.Operation, 0, len(hist))
+	for _, h := range hist {
+		ops = append(ops, porcupine.Operation{ClientId: h.Client, Input: h.In, Call: h.Call, Output: h.Out, Return: h.Ret})
+	}
+	return ops
+}
+
+// TestVerif_C08_ConcurrentHalfOpenExit: policies with minimumNumberOfCalls < permitted, so the
+// breaker can leave HALF_OPEN while admitted trials are still in flight.  A lock-step prelude
+// steers the breaker into HALF_OPEN with 2..permitted trials admitted and outstanding; then, at a
+// frozen virtual time, every outstanding trial is completed by its own goroutine at the same
+// moment (plus goroutines that acquire / record other calls).  When HALF_OPEN ends is read at
+// quiescence and followed; what is judged (porcupine, same automaton) is what the property fixes:
+// trial results that arrive after that end belong to an earlier state and must not count in the
+// new state.  A sequential tail of fresh calls with State() after every operation exposes a window
+// that holds a result it must not hold (opens with fewer than minimumNumberOfCalls fresh results,
+// or does not open although the fresh results alone reach the threshold).
+func TestVerif_C08_ConcurrentHalfOpenExit(t *testing.T) {
+	r := kit.Start(t, "C08")
+	defer r.Finish()
+	c08InstallClock()
+	r.Rule("policies with minimumNumberOfCalls < permitted trials (minimumNumberOfCalls in {0,1,N,N+1} and 2..permitted-1, permitted {2,5}, every threshold, both window types); lock-step prelude: 0-14 random steps, then steered (failures until OPEN, clock to the end of the wait, acquires) into HALF_OPEN with 2..permitted trials admitted and still outstanding, some trial results possibly recorded one by one; burst at a frozen clock: one goroutine per outstanding trial records its result (mostly successes, also mixed / all failed or slow) and then runs 0-2 further acquire/record operations, 0-2 more goroutines acquire and record; in 60% of the cases the goroutines are released as a convoy (the harness holds the breaker's own lock, as a slow concurrent caller would, until every goroutine has started its first operation), otherwise they run freely; then State() at quiescence and a sequential tail of 2-9 acquire/record operations (fresh calls and calls left over from the burst) with State() after each; the whole history is checked by porcupine against the reference automaton (decision point nondeterministic, staleness deterministic); distinct = (window type, permitted, min-calls class, trials in burst, convoy, state after burst, final state, verdict)")
+	r.Assume("same assumptions as TestVerif_C08_Sequential; the harness takes CircuitBreaker.lock only to delay the start of a burst (never while reading state); a lower bound of 50us of real time is waited after the last goroutine announced its first operation, nothing depends on that wait having been long enough except the required overlap observations")
+	n := r.N(2000, 60000)
+	for i := 0; i < n; i++ {
+		if !r.Mine(i) {
+			continue
+		}
+		rng := r.CaseRand(i)
+		var pol *c08Policy
+		for {
+			pol = c08GenPolicy(rng, -1, c08EarlyExit)
+			if pol.TimeBased || pol.MinCalls <= pol.N { // a count window smaller than minimumNumberOfCalls never opens
+				break
+			}
+		}
+		r.Case(i, pol)
+		g := c08NewRig(r, pol, rng)
+		for k := rng.Intn(15); k > 0 && !g.stopped; k-- {
+			g.step(rng)
+		}
+		// ---- steer into HALF_OPEN with `want` trials admitted and >= 2 of them outstanding
+		want := int(pol.Permitted)
+		if rng.Intn(2) == 0 {
+			want = 2 + rng.Intn(int(pol.Permitted)-1)
+		}
+		trialFail := []int{0, 0, 15, 15, 50, 100}[rng.Intn(6)]
+		trialSlow := []int{0, 0, 20, 100}[rng.Intn(4)]
+		pickTrial := func() uint8 {
+			if rng.Intn(100) < trialFail {
+				return c08Failure
+			}
+			if rng.Intn(100) < trialSlow {
+				return c08Slow
+			}
+			return c08Success
+		}
+		var cur []int // indices into g.pending of the outstanding trials of the current HALF_OPEN
+		ready := false
+		for k := 0; k < 150 && !g.stopped && !ready; k++ {
+			m := g.set[0]
+			allHalf := true
+			for _, x := range g.set {
+				if x.st != c08Half {
+					allHalf = false
+				}
+			}
+			switch {
+			case m.st == c08Closed:
+				g.acquire()
+				if !g.stopped && len(g.pending) > 0 {
+					res := uint8(c08Failure)
+					if rng.Intn(10) == 0 {
+						res = g.pickResult(rng)
+					}
+					g.record(len(g.pending)-1, res, rng)
+				}
+				if pol.TimeBased && k%8 == 7 && !g.stopped {
+					g.advance(int64(pol.N)*c08Sec, "steer: let old results leave the time window")
+				}
+			case m.st == c08Open:
+				d := m.openHi + int64(pol.Wait) - g.now + []int64{0, 0, 1, rng.Int63n(c08Sec)}[rng.Intn(4)]
+				if d < 0 {
+					d = 0
+				}
+				g.advance(d, "steer: to the end of the open wait")
+				if !g.stopped {
+					g.acquire()
+				}
+			case !allHalf:
+				g.acquire()
+			default:
+				cur = cur[:0]
+				for idx, pc := range g.pending {
+					if ep, ok := m.calls[pc.call]; ok && ep == m.epoch {
+						cur = append(cur, idx)
+					}
+				}
+				switch {
+				case m.admitted < want:
+					g.acquire()
+				case len(cur) >= 3 && rng.Intn(100) < 35:
+					g.record(cur[rng.Intn(len(cur))], pickTrial(), rng) // one trial reports on its own first
+				case len(cur) >= 2:
+					ready = true
+				case len(cur) == 1:
+					g.record(cur[0], pickTrial(), rng) // too few trials left: let this HALF_OPEN go on / finish
+				default:
+					g.acquire() // every admitted trial has reported and the breaker is still half-open
+				}
+			}
+		}
+		if g.stopped {
+			r.Count("prelude_stopped", 1)
+			continue
+		}
+		if !ready {
+			r.Count("halfexit_prelude_did_not_reach_half_open", 1)
+			continue
+		}
+		start := g.set
+		trialsBefore := len(start[0].trials)
+		// ---- scripts: goroutine w < len(cur) completes trial cur[w] first
+		nt := len(cur)
+		G := nt + rng.Intn(3)
+		scripts := make([][]c08Script, G)
+		first := make([]c08Pending, nt)
+		isCur := map[int]bool{}
+		for w, idx := range cur {
+			first[w] = g.pending[idx]
+			isCur[idx] = true
+		}
+		stale := make([][]c08Pending, G)
+		ns := 0
+		for idx, pc := range g.pending {
+			if !isCur[idx] && ns < 6 {
+				w := rng.Intn(G)
+				stale[w] = append(stale[w], pc)
+				ns++
+			}
+		}
+		mk := func(kind string, res uint8) c08Script {
+			s := c08Script{kind: kind, res: res}
+			s.hasEr, s.d = c08Durations(rng, pol, s.res)
+			return s
+		}
+		for w := 0; w < G; w++ {
+			extra := rng.Intn(3)
+			if w < nt {
+				scripts[w] = append(scripts[w], mk("T", pickTrial()))
+			} else {
+				scripts[w] = append(scripts[w], mk("A", 0))
+				extra = 1 + rng.Intn(2)
+			}
+			for k := 0; k < extra; k++ {
+				kind := "A"
+				if rng.Intn(2) == 0 {
+					kind = "R"
+				}
+				scripts[w] = append(scripts[w], mk(kind, g.pickResult(rng)))
+			}
+		}
+		convoy := rng.Intn(100) < 60
+		// ---- burst
+		var clock int64
+		var gate, arrived int32
+		var wg sync.WaitGroup
+		logs := make([][]c08Logged, G)
+		left := make([][]c08Pending, G)
+		cb := g.cb
+		now := g.now
+		callBase := g.nextCall
+		panics := make([]string, G)
+		if convoy {
+			cb.lock.Lock()
+		}
+		for w := 0; w < G; w++ {
+			wg.Add(1)
+			go func(w int) {
+				defer wg.Done()
+				defer func() {
+					if e := recover(); e != nil {
+						panics[w] = fmt.Sprint(e)
+					}
+				}()
+				var own []c08Pending
+				mine := stale[w]
+				for atomic.LoadInt32(&gate) == 0 {
+					runtime.Gosched()
+				}
+				atomic.AddInt32(&arrived, 1)
+				for k, s := range scripts[w] {
+					kind := s.kind
+					var pc c08Pending
+					switch kind {
+					case "T":
+						pc, kind = first[w], "R"
+					case "R":
+						switch {
+						case len(own) > 0:
+							pc, own = own[len(own)-1], own[:len(own)-1]
+						case len(mine) > 0:
+							pc, mine = mine[0], mine[1:]
+						default:
+							kind = "A"
+						}
+					}
+					if kind == "A" {
+						call := callBase + w*100 + k
+						c := atomic.AddInt64(&clock, 1)
+						ok, tag := cb.AcquirePermission()
+						ret := atomic.AddInt64(&clock, 1)
+						if ok {
+							own = append(own, c08Pending{call, tag})
+						}
+						logs[w] = append(logs[w], c08Logged{w, c08OpIn{"acquire", call, 0, now}, c08OpOut{Permitted: ok}, c, ret})
+					} else {
+						c := atomic.AddInt64(&clock, 1)
+						cb.RecordResult(pc.tag, s.hasEr, s.d)
+						ret := atomic.AddInt64(&clock, 1)
+						logs[w] = append(logs[w], c08Logged{w, c08OpIn{"record", pc.call, s.res, now}, c08OpOut{}, c, ret})
+					}
+				}
+				left[w] = append(own, mine...)
+			}(w)
+		}
+		atomic.StoreInt32(&gate, 1)
+		if convoy {
+			dl := time.Now().Add(60 * time.Second)
+			for atomic.LoadInt32(&arrived) < int32(G) && time.Now().Before(dl) {
+				runtime.Gosched()
+			}
+			late := atomic.LoadInt32(&arrived) < int32(G)
+			for k := 0; k < 20; k++ {
+				runtime.Gosched()
+			}
+			time.Sleep(50 * time.Microsecond)
+			cb.lock.Unlock()
+			if late {
+				r.Inconclusive(fmt.Sprintf("convoy of case %d did not assemble within 60s", i))
+			}
+			r.Count("halfexit_convoy_bursts", 1)
+		} else {
+			r.Count("halfexit_free_running_bursts", 1)
+		}
+		wg.Wait()
+		for w, p := range panics {
+			if p != "" {
+				r.Violation("conc:halfexit:panic:"+kit.MsgClass(p), map[string]interface{}{"policy": pol, "goroutine": w, "panic": p, "prelude": g.trace})
+			}
+		}
+		// ---- quiescent: State(), then the sequential tail
+		var hist []c08Logged
+		for w := 0; w < G; w++ {
+			hist = append(hist, logs[w]...)
+		}
+		sort.Slice(hist, func(a, b int) bool { return hist[a].Call < hist[b].Call })
+		burstOps := len(hist)
+		desc := make([]string, burstOps, burstOps+24)
+		seqOp := func(in c08OpIn, what string, f func() c08OpOut) c08OpOut {
+			c := atomic.AddInt64(&clock, 1)
+			out := f()
+			ret := atomic.AddInt64(&clock, 1)
+			hist = append(hist, c08Logged{G, in, out, c, ret})
+			desc = append(desc, what)
+			return out
+		}
+		readState := func(after string) State {
+			return seqOp(c08OpIn{"state", 0, 0, now}, "state-after-"+after, func() c08OpOut { return c08OpOut{State: cb.State()} }).State
+		}
+		exit := readState("burst")
+		var tailOwn, leftover []c08Pending
+		for w := 0; w < G; w++ {
+			leftover = append(leftover, left[w]...)
+		}
+		tailFail := []int{10, 50, 90, 100}[rng.Intn(4)]
+		tailOps := 2 + rng.Intn(8)
+		tailRecorded := 0
+		for k := 0; k < tailOps; k++ {
+			x := rng.Intn(100)
+			switch {
+			case len(tailOwn) > 0 && (x < 60 || k == tailOps-1):
+				pc := tailOwn[len(tailOwn)-1]
+				tailOwn = tailOwn[:len(tailOwn)-1]
+				res := uint8(c08Success)
+				if y := rng.Intn(100); y < tailFail {
+					res = c08Failure
+				} else if y < tailFail+10 {
+					res = c08Slow
+				}
+				hasErr, d := c08Durations(rng, pol, res)
+				what := "fresh-" + c08ResName[res]
+				seqOp(c08OpIn{"record", pc.call, res, now}, what, func() c08OpOut { cb.RecordResult(pc.tag, hasErr, d); return c08OpOut{} })
+				tailRecorded++
+				readState(what)
+			case len(leftover) > 0 && x >= 85:
+				pc := leftover[0]
+				leftover = leftover[1:]
+				res := g.pickResult(rng)
+				hasErr, d := c08Durations(rng, pol, res)
+				what := "burst-call-" + c08ResName[res]
+				seqOp(c08OpIn{"record", pc.call, res, now}, what, func() c08OpOut { cb.RecordResult(pc.tag, hasErr, d); return c08OpOut{} })
+				readState(what)
+			default:
+				call := callBase + 5000 + k
+				var tag uint32
+				out := seqOp(c08OpIn{"acquire", call, 0, now}, "acquire", func() c08OpOut {
+					ok, tg := cb.AcquirePermission()
+					tag = tg
+					return c08OpOut{Permitted: ok}
+				})
+				what := "acquire-rejected"
+				if out.Permitted {
+					tailOwn = append(tailOwn, c08Pending{call, tag})
+					what = "acquire-admitted"
+				}
+				desc[len(desc)-1] = what
+				readState(what)
+			}
+		}
+		final := cb.State()
+		r.Eval(len(hist))
+		// ---- what was observed
+		trialOverlap := 0 // pairs of trial completions of the current HALF_OPEN that overlap in time
+		for a := 0; a < burstOps; a++ {
+			for b := a + 1; b < burstOps; b++ {
+				ha, hb := hist[a], hist[b]
+				if ha.Client < nt && hb.Client < nt && ha.Client != hb.Client && ha.In.Kind == "record" && hb.In.Kind == "record" &&
+					ha.In.Call == first[ha.Client].call && hb.In.Call == first[hb.Client].call && hb.Call < ha.Ret {
+					trialOverlap++
+				}
+			}
+		}
+		if trialOverlap > 0 {
+			r.Count("halfexit_bursts_with_overlapping_trial_results", 1)
+			if exit != StateHalfOpen {
+				r.Count("halfexit_overlapping_trial_results_and_exit_to_"+stateStrings[exit], 1)
+				if trialsBefore+nt > 1 && exit == StateClosed && tailRecorded > 0 {
+					r.Count("halfexit_fresh_results_recorded_after_exit_to_Closed", 1)
+				}
+			}
+		}
+		res := porcupine.CheckOperationsTimeout(c08PorcupineModel(start), c08ToOps(hist), 120*time.Second)
+		switch res {
+		case porcupine.Ok:
+			r.Count("porcupine_ok", 1)
+		case porcupine.Unknown:
+			r.Count("porcupine_unknown", 1)
+			r.Inconclusive(fmt.Sprintf("porcupine Unknown (timeout) on case %d", i))
+		case porcupine.Illegal:
+			r.Count("porcupine_illegal", 1)
+			// localize: the shortest prefix (burst + state, then the tail operation by operation) that has no linearization
+			where := "burst"
+			for k := burstOps + 1; k <= len(hist); k++ {
+				pr := porcupine.CheckOperationsTimeout(c08PorcupineModel(start), c08ToOps(hist[:k]), 120*time.Second)
+				if pr == porcupine.Illegal {
+					if k > burstOps+1 {
+						where = "tail:" + desc[k-1]
+						if hist[k-1].In.Kind == "state" {
+							where += "=" + stateStrings[hist[k-1].Out.State]
+						}
+					}
+					break
+				}
+			}
+			starts := []interface{}{}
+			for _, s := range start {
+				starts = append(starts, s.describe())
+			}
+			r.Violation(fmt.Sprintf("conc:halfexit:not-linearizable:after-burst=%s:%s", stateStrings[exit], where), map[string]interface{}{
+				"policy": pol, "prelude": g.trace, "start_states": starts, "frozen_now_ns": now, "convoy": convoy,
+				"trial_calls_completed_together": first, "history": hist, "tail_operations": desc[burstOps:], "final_state": stateStrings[final],
+				"reading": "after-burst = State() when all goroutines had returned; a tail position means: the burst alone can be explained, but the fresh calls after it behave as if the new state's window held results it must not hold (or missed some)",
+			})
+		}
+		wt := "C"
+		if pol.TimeBased {
+			wt = "T"
+		}
+		mc := "min" + fmt.Sprint(pol.MinCalls)
+		r.Cover(fmt.Sprintf("halfexit/%s/p%d/%s/trials%d+%d/convoy=%v/%v/exit=%s/final=%s", wt, pol.Permitted, mc, trialsBefore, nt, convoy, res, stateStrings[exit], stateStrings[final]))
+		if i < 2 {
+			r.Sample(map[string]interface{}{"policy": pol, "start": start[0].describe(), "history": hist, "porcupine": fmt.Sprint(res)})
+		}
+	}
+	r.Require("porcupine_ok", 1)
+	r.Require("halfexit_convoy_bursts", 1)
+	r.Require("halfexit_free_running_bursts", 1)
+	r.Require("halfexit_bursts_with_overlapping_trial_results", 1)
+	r.Require("halfexit_overlapping_trial_results_and_exit_to_Closed", 1)
+	r.Require("halfexit_overlapping_trial_results_and_exit_to_Open", 1)
+	r.Require("halfexit_fresh_results_recorded_after_exit_to_Closed", 1)
 }
